@@ -19,8 +19,24 @@
                       among the call results, replays the k-1, executes the k-th and requests exactly the next
                       ready call;
      facts about the reading itself (it is a function of script and services; its answer does not depend on
-     the fuel). *)
-From Aqua Require Import Base Json Air Exec RunExec SeqSem SeqFrag SeqLocal SeqProofs SeqLocalProofs.
+     the fuel);
+     SEVERAL PEERS, straight-line scripts (model/NetLin.v, proofs/NetLinProofs.v) -- the approximation invariant of
+     DESIGN appendix B for this fragment:
+     C16_step_two_data  one run (run1 and run2) at ANY peer on a previous and a current data that both approximate
+                      the full sequential trace F (a prefix of F plus at most one RequestSentBy state), with no call
+                      result or the answer to the own pending request: returns new data with code 0 or the catchable
+                      code the reading ends with, whose trace is the longer prefix (one state longer when the answer
+                      was supplied) followed by exactly the state NetLin.frontier_at prescribes; issues a request
+                      exactly when the next call of F is addressed to this peer and is not pending here; names the
+                      addressed peer as next peer exactly when it forwards;
+     C16_net_invariant  by induction over the honest histories of model/SeqLocal.v (start anywhere in the history,
+                      every delivery order, duplication, re-delivery, delayed answers): every stored and every
+                      in-flight data approximates F, the pending request of a host <-> the RequestSentBy(p, id) state
+                      at the end of its data, the service log is a PREFIX of the calls of the reading;
+     C16_full_linear  C16_full restricted to straight-line scripts: in every honest history the invocations are a
+                      prefix of the calls of SeqSem.seq_eval, in its order (hence a sub-multiset);
+     C16_reading_has_full  the full trace F is defined whenever the reading is, with the reading's calls and status. *)
+From Aqua Require Import Base Json Air Trace Values Exec RunExec ExecStreams SeqSem SeqFrag SeqLocal SeqProofs SeqLocalProofs NetLin NetLinProofs.
 Open Scope N_scope.
 Open Scope list_scope.
 
@@ -90,6 +106,72 @@ Example C16_local_example :
   length (calls_of (reading ex_svc_full 0 0 everything_known "A" 20 ex_linear)) = 3%nat.
 Proof. vm_compute. repeat split; reflexivity. Qed.
 
+(* ---- several peers ---- *)
+Theorem C16_step_two_data : forall svc init ts ttl, step_two_data_stmt svc init ts ttl.
+Proof. exact step_two_data. Qed.
+
+Theorem C16_net_invariant : forall svc init ts ttl, net_invariant_stmt svc init ts ttl.
+Proof. exact net_invariant. Qed.
+
+Theorem C16_log_is_prefix : forall svc init ts ttl,
+    lin_log_is_prefix svc init ts ttl run1 /\ lin_log_is_prefix svc init ts ttl run2.
+Proof. intros. split; apply log_is_prefix_gen; [apply run1_step | apply run2_step]. Qed.
+
+Theorem C16_history_is_seqlocal : forall svc init ts ttl, history_is_seqlocal_stmt svc init ts ttl.
+Proof. exact history_is_seqlocal. Qed.
+
+Theorem C16_reading_has_full : forall svc init ts ttl, reading_has_full_stmt svc init ts ttl.
+Proof. exact reading_has_full. Qed.
+
+Theorem C16_full_linear : forall svc init ts ttl, C16_full_linear_stmt svc init ts ttl.
+Proof. exact NetLinProofs.C16_full_linear. Qed.
+
+(* non-vacuity: three calls on two peers, (seq (call A f [] x) (seq (call B g [x] y) (call A h [y] z))) *)
+Definition ex_two_peers : instr :=
+  ISeq (ex_call "A" "f" [] (OutScalar (ex_var "x")))
+       (ISeq (ex_call "B" "g" [VScalar (ex_var "x")] (OutScalar (ex_var "y")))
+             (ex_call "A" "h" [VScalar (ex_var "y")] (OutScalar (ex_var "z")))).
+Definition ex_full : option nout := full_trace ex_svc_full "A" 0 0 20 ex_two_peers.
+Definition ex_prefix (n : nat) : list (state cid) := match ex_full with Some F => firstn n (o_exec F) | None => [] end.
+Definition ex_params (p : string) : run_params := nparams "A" 0 0 p.
+Definition ex_data (o : RunExec.outcome) : idata := match o with OutNewData _ d _ _ _ => d | _ => empty_data end.
+(* A starts and is answered: its data holds f's result and the forwarding mark; B merges it and requests g *)
+Definition ex_a0 := run2 20 {| ri_script := ex_two_peers; ri_params := ex_params "A"; ri_prev := empty_data; ri_cur := empty_data; ri_results := [] |}.
+Definition ex_a1 := run2 20 {| ri_script := ex_two_peers; ri_params := ex_params "A"; ri_prev := ex_data ex_a0; ri_cur := empty_data;
+                               ri_results := [(1, ex_svc_full "A" "s" "f" [])] |}.
+Definition ex_b0 := run2 20 {| ri_script := ex_two_peers; ri_params := ex_params "B"; ri_prev := empty_data; ri_cur := ex_data ex_a1; ri_results := [] |}.
+(* a stale duplicate of A's first particle reaches B after B executed g: two data, both prefixes of F *)
+Definition ex_b1 := run2 20 {| ri_script := ex_two_peers; ri_params := ex_params "B"; ri_prev := ex_data ex_b0; ri_cur := empty_data;
+                               ri_results := [(1, ex_svc_full "B" "s" "g" [JArr [JStr "f@A"]])] |}.
+Definition ex_b2 := run2 20 {| ri_script := ex_two_peers; ri_params := ex_params "B"; ri_prev := ex_data ex_b1; ri_cur := ex_data ex_a1; ri_results := [] |}.
+Example C16_step_two_data_example :
+  nlinear "A" ex_two_peers = true /\ names_ok [] ex_two_peers <> None /\
+  (exists F, ex_full = Some F /\ length (o_exec F) = 3%nat /\ map c_peer (o_calls F) = ["A"; "B"; "A"]) /\
+  d_trace (ex_data ex_a0) = ex_prefix 0 ++ [pend_state (SPeerCall "A" 1)] /\
+  d_trace (ex_data ex_a1) = ex_prefix 1 ++ [pend_state (SPeer "A")] /\
+  (exists c d rq s, ex_a1 = OutNewData c d ["B"] rq s /\ rq = []) /\
+  d_trace (ex_data ex_b0) = ex_prefix 1 ++ [pend_state (SPeerCall "B" 1)] /\
+  (exists c d rq s, ex_b0 = OutNewData c d [] rq s /\ map fst rq = [1]) /\
+  d_trace (ex_data ex_b1) = ex_prefix 2 ++ [pend_state (SPeer "B")] /\
+  (* the stale particle changes nothing: the longer prefix and its own mark stay, nothing is requested or sent *)
+  (exists c s, ex_b2 = OutNewData c (ex_data ex_b1) [] [] s).
+Proof. vm_compute. repeat split; try discriminate; repeat eexists. Qed.
+
+(* every honest history of that script: here a delivery order with a duplicate and a re-delivery *)
+Example C16_net_example :
+  let ops := [OStart; OAnswer "A" [1]; ODeliver 0 true; OAnswer "B" [1]; ODeliver 0 false; ORedeliver 0;
+              ODeliver 0 false; OAnswer "A" [2]; OStart] in
+  let n := history_with ex_svc_full "A" 0 0 run2 20 ex_two_peers ["A"; "B"] ops in
+  match ex_full with Some F => n_log n = o_calls F | None => False end /\
+  n_log (history ex_svc_full 0 0 20 ex_two_peers "A" ["A"; "B"] ops) = n_log n.
+Proof. vm_compute. split; reflexivity. Qed.
+
 Print Assumptions C16_local_partial.
+Print Assumptions C16_step_two_data.
+Print Assumptions C16_net_invariant.
+Print Assumptions C16_log_is_prefix.
+Print Assumptions C16_history_is_seqlocal.
+Print Assumptions C16_reading_has_full.
+Print Assumptions C16_full_linear.
 Print Assumptions C16_reading_fuel_monotone.
 Print Assumptions C16_reading_function_of_services.
